@@ -185,6 +185,10 @@ open Coll in
 theorem pf_tagTable : AllPF Coll.tagTable := by
   unfold Coll.tagTable
   repeat' (first | exact AllPF.nil | apply AllPF.cons)
+  · unfold Coll.wordFmtBase Coll.putFmt; pf
+  · unfold Coll.wordFmtBit Coll.putFmt; pf
+  · unfold Coll.wordFmtBit Coll.putFmt; pf
+  · unfold Coll.wordFmtBit Coll.putFmt; pf
   · unfold wordTags; pf
   · unfold Coll.wordWithTags; pf
   · unfold wordInsertTag; pf
